@@ -3,6 +3,7 @@
 package main
 
 import (
+	"encoding/hex"
 	"encoding/json"
 	"fmt"
 	"os"
@@ -108,6 +109,7 @@ func main() {
 				Kind     string   `json:"kind"`
 				Text     string   `json:"text"`
 				Schema   string   `json:"schema"`
+				Hex      string   `json:"hex"`
 				Format   string   `json:"format"`
 				Docs     []string `json:"docs"`
 				XPath    string   `json:"xpath"`
@@ -118,6 +120,11 @@ func main() {
 		if err := json.Unmarshal(b, &rp); err != nil || rp.Case.Kind == "" {
 			fmt.Fprintln(os.Stderr, "replay file has no case {kind,text}:", err)
 			os.Exit(2)
+		}
+		if rp.Case.Hex != "" {
+			if b, err := hex.DecodeString(rp.Case.Hex); err == nil {
+				rp.Case.Text = string(b)
+			}
 		}
 		sum.Count(rp.Case.Kind+":"+rp.Case.Text, true)
 		if o.Corpus != "" {
@@ -224,6 +231,7 @@ func main() {
 	lap("bigxml")
 	escapeDocs(sum, cw)
 	crDocs(sum, cw)
+	encodedDocs(r, sum, cw)
 	genInterleave(r, sum, true)
 	for i, k := 0, o.Count(150, 3000); i < k; i++ {
 		genInterleave(r, sum, false)
